@@ -279,8 +279,12 @@ class RecSampler:
         self.raise_at, self.raised = raise_at, False
         self.reenter, self.reentered = False, False
         self.raise_exc = None
+        self.limit, self.runaway = None, False
 
     def __call__(self, source, **kw):
+        if self.limit is not None and len(self.inputs) >= self.limit:
+            self.runaway = True
+            raise RuntimeError(f"simkit: sampler invoked {len(self.inputs) + 1} times")
         if self.raise_at is not None and len(self.inputs) == self.raise_at:
             self.raised = True
             self.inputs.append(source)
@@ -384,6 +388,7 @@ def execute(scn, ctx):
                 sampler = RecSampler(s_kind, inner, raise_at=ra)
                 sampler.reenter = bool(sspec.get("reenter"))
                 sampler.raise_exc = next((f.get("exc") for f in (op.get("faults") or []) if f["kind"] == "sampler_raise"), None)
+                sampler.limit = 6 * int(cfg["nb_samples"]) + 40
                 config = M.build_config(dict(cfg, sampling_method={"callable": s_kind}, stratified_sampling=sspec.get("outer_strat")), sampler=sampler)
             else:
                 config = M.build_config(dict(sspec, **cfg))
@@ -422,6 +427,12 @@ def execute(scn, ctx):
         def bad(name, detail, extra=None):
             viol.append({"invariant": f"C18.{name}", "detail": f"{detail} [op {step}]", "tags": dict(tags, **(extra or {}))})
 
+        if sampler is not None and boot and not control_fault and (sampler.runaway or (res["ok"] and len(sampler.inputs) != int(op["cfg"]["nb_samples"]))):
+            # the intervals are those of the configured number of resamples of the configured sampler
+            bad("ci_same_quantity", f"showbias invoked the configured sampler {'more than ' + str(sampler.limit) if sampler.runaway else len(sampler.inputs)} times "
+                                    f"for nb_samples={op['cfg']['nb_samples']}", {"resample_count": True})
+            if sampler.runaway:
+                control_fault = True
         if M.fingerprint(df) != df_fp:
             bad("data_unchanged", "showbias modified the caller's DataFrame")
         if thr_fp is not None and M.fingerprint(thr_arg) != thr_fp:
